@@ -10,8 +10,10 @@ Pipeline (DESIGN 4/C14):
   2. Every (partition, query) state is exported with the layer-A answer and replayed on real
      RectPartition / RectGrid / IntervalProd objects and constructors under several concretisations.
      Histories (PartHist): every behaviour of 3 steps + final sweep over Construct(4 routes x 2 limit sets; ONE shared RectGrid
-     object, caller-owned float64 arrays) / Query / MutateCallerArray / MutateReturned(10 attributes) is replayed; every query on
-     every object (both orders) must equal the history-free reference.
+     object, caller-owned float64 arrays) / Query / MutateCallerArray / MutateReturned(10 attributes) /
+     CallShared(36 families of non-mutating methods of the held IntervalProd, RectGrid and of the partition itself - collapse,
+     squeeze, insert, append, min, max, corners, arithmetic, ... - with the handed-out arrays overwritten) is replayed; every
+     query on every object (both orders) must equal the history-free reference.
   3. Every replayed call and the calls of a seeded random driver (1-4 d, up to 8 random dyadic nodes per axis,
      random index expressions / points / requests) are recorded as events and validated by TLC (Trace_Part).
 """
@@ -52,14 +54,24 @@ def _val(clause):
     return 'value' if clause in ('min', 'max', 'nodes') else clause
 
 
+# IntervalProd.min() / max() are documented as `return self.min_pt` / `self.max_pt`: overwriting what they return is the
+# MR/min_pt, MR/max_pt family of PartHist (same array object), reached through another spelling
+CM_SAME_ARRAY = {'CM/set.min': 'MR/min_pt', 'CM/set.max': 'MR/max_pt'}
+
+
 def signature(ev, conc, clause, k=0):
     """Family-level signature of a failed clause of one event (no literal numbers)."""
     kind = ev['kind']
     if kind == 'phist':
-        mut = next(('%s/%s' % (s['a'], s['attr']) for s in ev['steps'] if s['a'] in ('MC', 'MR')), 'none')
+        mut = next(('%s/%s' % (s['a'], s['attr']) for s in ev['steps'] if s['a'] in ('MC', 'MR', 'CM')), 'none')
+        via = None
+        if mut in CM_SAME_ARRAY:       # the method returns the very array of an attribute already in the MR catalogue
+            via, mut = mut, CM_SAME_ARRAY[mut]
         routes = sorted(set(o['route'] for o in ev['objs']))
         st = ev['steps'][k - 1] if 1 <= k <= len(ev['steps']) else {'a': '-', 'err': ''}
         sig = {'api': 'history', 'mut': mut, 'clause': 'value' if clause in L.QUERIES else clause}
+        if via:
+            sig['via'] = via
         if mut == 'none':       # pure sharing / ordering effects: say which construction routes and which query
             sig.update(routes='+'.join(routes), query=clause if clause in L.QUERIES else st['a'])
         return sig
@@ -482,7 +494,9 @@ def run(ctx):
         'floating index on a degenerate (min = max) axis is 0/0 and not compared',
         'inconsistent constructor requests (fewer than 3 parameters, contradicting values) are outside the statement and not explored',
         'histories: a caller that overwrites an array RETURNED by a partition must leave the partition (and its siblings on the same grid) '
-        'unaffected - either the array is a copy or it is read-only (a refused write counts as unaffected); in histories the size of the '
+        'unaffected - either the array is a copy or it is read-only (a refused write counts as unaffected); the same holds for every '
+        'public method of the partition, its set and its grid that is documented as returning a new object or a value (action CM: '
+        'calling it, and overwriting the arrays it hands out, leaves every partition as built); in histories the size of the '
         'single cell of a one-node axis is not compared (open finding KF-C14-3)']
     import time
     T = [time.time()]
